@@ -222,12 +222,12 @@ int main(int argc, char **argv)
         std::vector<double> TV = {0.5, 1.0, 2.0, 3.0}, TA = {0.5, 1.0, 2.0, 3.0}, BJ = {1.0, 2.0, 4.0, 8.0, 30.0}, BA = {0.5, 1.0, 2.0, 3.0, 10.0}, BV = {0.5, 1.0, 2.0, 3.0, 5.0};
         if (thorough)
         {
-            for (double v : {0.01, 0.1, 20.0, 100.0}) { DIST.push_back(v); }
-            for (double v : {0.3, 1.7, 10.0}) { TV.push_back(v); }
-            for (double v : {0.3, 7.0}) { TA.push_back(v); }
-            for (double v : {0.5, 100.0}) { BJ.push_back(v); }
-            BA.push_back(0.2);
-            BV.push_back(10.0);
+            for (double v : {0.01, 0.03, 0.1, 0.4, 1.25, 2.0, 7.5, 13.0, 20.0, 50.0, 100.0}) { DIST.push_back(v); }
+            for (double v : {0.3, 0.75, 1.25, 1.7, 4.0, 6.0, 10.0}) { TV.push_back(v); }
+            for (double v : {0.3, 0.75, 1.5, 4.0, 7.0, 12.0}) { TA.push_back(v); }
+            for (double v : {0.25, 0.5, 3.0, 6.0, 16.0, 60.0, 100.0}) { BJ.push_back(v); }
+            for (double v : {0.2, 0.75, 1.5, 5.0, 20.0}) { BA.push_back(v); }
+            for (double v : {0.25, 0.75, 1.5, 4.0, 10.0, 20.0}) { BV.push_back(v); }
         }
         std::vector<double> P0 = thorough ? std::vector<double>{0, 7, -3} : std::vector<double>{0, 7};
         uint64_t item = 0;
@@ -264,7 +264,7 @@ int main(int argc, char **argv)
                 }
             }
         }
-        R.part(std::string("trapezoid: vm in {1/2,1,2,3") + (thorough ? ",0.3,1.7,10" : "") + "} x |ac|,|de| in {1/2,1,2,3" + (thorough ? ",0.3,7" : "") + "} (signs matching the direction) x " + std::to_string(DIST.size()) + " distances x both directions x p0 x 13^2 boundary velocities (inside, at and 25% beyond the limit): requests " + std::to_string(n_req) + ", plans with positive duration " + std::to_string(n_plan) + "; each plan: phase order, start/end/held states, continuity at phase boundaries, speed limit and derivative consistency on a 33-point lattice per phase", n_req, n_plan);
+        R.part(std::string("trapezoid: vm in {1/2,1,2,3") + (thorough ? ",0.3,0.75,1.25,1.7,4,6,10" : "") + "} x |ac|,|de| in {1/2,1,2,3" + (thorough ? ",0.3,0.75,1.5,4,7,12" : "") + "} (signs matching the direction) x " + std::to_string(DIST.size()) + " distances x both directions x p0 x 13^2 boundary velocities (inside, at and 25% beyond the limit): requests " + std::to_string(n_req) + ", plans with positive duration " + std::to_string(n_plan) + "; each plan: phase order, start/end/held states, continuity at phase boundaries, speed limit and derivative consistency on a 33-point lattice per phase", n_req, n_plan);
         vx::stat("trap_plans", (long long)n_plan);
         uint64_t evals = n_eval;
         // ---- bell
